@@ -236,6 +236,9 @@ func c14Cell(res *c14Result, snap *slog.VerifRegistry, cal [][]c14site, kind, fo
 		switch api {
 		case "SetSkip":
 			x.l.SetSkip(skip)
+		case "SetSkipBack": // a larger count first, then the one under test (back to 0 included)
+			x.l.SetSkip(skip + 2)
+			x.l.SetSkip(skip)
 		case "SetSkipLate": // set after the log/slog handler and the std-log bridge exist (below)
 		case "WithSkip":
 			e = x.l.WithSkip(skip)
@@ -251,6 +254,9 @@ func c14Cell(res *c14Result, snap *slog.VerifRegistry, cal [][]c14site, kind, fo
 	case "default":
 		switch api {
 		case "SetSkip":
+			slog.SetSkip(skip)
+		case "SetSkipBack":
+			slog.SetSkip(skip + 2)
 			slog.SetSkip(skip)
 		case "WithSkip":
 			slog.SetDefault(slog.WithSkip(skip)) // the default logger is now an *Entry (second arm of logctxctx)
@@ -369,7 +375,7 @@ func c14Grid(build, tier string, only *c14Case) *c14Result {
 	res.Inlined = c14Inlined
 	for _, kind := range c14Kinds {
 		for _, format := range c14Formats {
-			for _, api := range []string{"none", "SetSkip", "SetSkipLate", "WithSkip", "WithSkipSiblings"} {
+			for _, api := range []string{"none", "SetSkip", "SetSkipBack", "SetSkipLate", "WithSkip", "WithSkipSiblings"} {
 				for skip := 0; skip <= c14MaxDepth; skip++ {
 					if (api == "none" && skip > 0) || (api == "SetSkipLate" && kind == "default") {
 						continue
@@ -511,7 +517,7 @@ func c14Register(r *Run, results []*c14Result) {
 
 func runC14(r *Run) {
 	c14Header(r)
-	r.Rule = "finite grid, fully enumerated: every public entry point called directly (Entry methods through a static *Entry receiver and through the slog.Logger interface, package-level functions, log/slog adapter Info/Debug/Warn/Error/Log, std log bridge Println/Printf/Print) x 3 formats x skip 0..4 given by SetSkip (before and after the adapters are made), by WithSkip and by WithSkip on a parent that hands out a logger for every depth 0..4 (plus no skip call), every statement executed three times (plain attribute; an errors.v3 error value carrying its own stack; plain again) under a wrapper chain of matching depth (thorough: every depth skip..4) x {root, child, default logger} x {normal build, -gcflags=all=-l}; non-trivial = skip > 0 or not an Entry method; distinct by (entry point, format, skip, logger kind, build, position in the statement's history)"
+	r.Rule = "finite grid, fully enumerated: every public entry point called directly (Entry methods through a static *Entry receiver and through the slog.Logger interface, package-level functions, log/slog adapter Info/Debug/Warn/Error/Log, std log bridge Println/Printf/Print) x 3 formats x skip 0..4 given by SetSkip (before and after the adapters are made, and after a larger count was set first), by WithSkip and by WithSkip on a parent that hands out a logger for every depth 0..4 (plus no skip call), every statement executed three times (plain attribute; an errors.v3 error value carrying its own stack; plain again) under a wrapper chain of matching depth (thorough: every depth skip..4) x {root, child, default logger} x {normal build, -gcflags=all=-l}; non-trivial = skip > 0 or not an Entry method; distinct by (entry point, format, skip, logger kind, build, position in the statement's history)"
 	inl := c14Grid("inline", r.Tier, nil)
 	noinl := c14RunNoinline(r, nil)
 	// the positions of the wrappers' call statements must not depend on the build
